@@ -267,8 +267,9 @@ func selectCAPubKeyInfo(caInfo *document.ChipAuthenticationInfo, caAlgInfo *CaAl
 		if curPubKey.Protocol.Equal(caAlgInfo.targetOid) {
 			// no key-id specified, so good to use any matching public-key
 			// *OR* key-id specified, so need to find matching public-key
+			// NB the public-key info may lack a key-id even though the CA info names one
 			if (caInfo.KeyId == nil) ||
-				((caInfo.KeyId != nil) && (caInfo.KeyId.Cmp(curPubKey.KeyId) == 0)) {
+				((caInfo.KeyId != nil) && (curPubKey.KeyId != nil) && (caInfo.KeyId.Cmp(curPubKey.KeyId) == 0)) {
 				return curPubKey, nil
 			}
 		}
